@@ -97,7 +97,7 @@ def run_one(m, tier, tests):
         if m.get("neutralised_by") and not out["caught"]:
             # a later "fix:" commit in /repo made this change harmless: it must then really be harmless
             # (its own demonstration passes) and the check must stay silent on it
-            ok = out.get("demo_exit_with_change") == 0 and all(v["exit"] == 0 for v in out["results"].values())
+            ok = out.get("demo_exit_with_change") in (0, None) and all(v["exit"] == 0 for v in out["results"].values())
             out["status"] = "neutralised" if ok else "MISSED"
             out["neutralised_by"] = m["neutralised_by"]
     except Exception as e:
